@@ -147,24 +147,51 @@ int_laws!(laws_i8, i8, low_i, high_i, true);
 int_laws!(laws_u8, u8, low_u, high_u, false);
 int_laws!(laws_i64, i64, low_i, high_i, true);
 int_laws!(laws_u64, u64, low_u, high_u, false);
+int_laws!(laws_i16, i16, low_i, high_i, true);
+int_laws!(laws_i32, i32, low_i, high_i, true);
+int_laws!(laws_i128, i128, low_i, high_i, true);
+int_laws!(laws_isize, isize, low_i, high_i, true);
+int_laws!(laws_u16, u16, low_u, high_u, false);
+int_laws!(laws_u32, u32, low_u, high_u, false);
+int_laws!(laws_u128, u128, low_u, high_u, false);
+int_laws!(laws_usize, usize, low_u, high_u, false);
+/// i128 code -> value of the element type: the extreme codes map to the extremes of the type, others wrap
+macro_rules! conv {
+    ($t:ty, $v:expr) => {{
+        let v: i128 = $v;
+        if v == i128::MAX {
+            <$t>::MAX
+        } else if v == i128::MIN {
+            <$t>::MIN
+        } else if v == i128::MAX - 1 {
+            <$t>::MAX - 1
+        } else if v == i128::MIN + 1 {
+            <$t>::MIN + 1
+        } else {
+            v as $t
+        }
+    }};
+}
 
-fn laws_f64(a: f64, b: f64, obs: &mut Obs) -> PResult {
+macro_rules! float_laws {
+    ($name:ident, $t:ty) => {
+fn $name(a: $t, b: $t, obs: &mut Obs) -> PResult {
     laws_generic(a, b, obs)?;
     obs.evals(6);
     let up = Interval::new_upper(a);
     let lo = Interval::new_lower(b);
-    let same = |x: f64, y: f64| x.to_bits() == y.to_bits();
-    ensure!(same(up.low_f(), a) && up.high_f() == f64::INFINITY, "C14/float_projection/upper", "{up:?}: ({}, {})", up.low_f(), up.high_f());
-    ensure!(lo.low_f() == f64::NEG_INFINITY && same(lo.high_f(), b), "C14/float_projection/lower", "{lo:?}: ({}, {})", lo.low_f(), lo.high_f());
-    let t: (f64, f64) = up.into();
-    ensure!(same(t.0, a) && t.1 == f64::INFINITY, "C14/into_tuple/upper", "{up:?} into tuple = {t:?}");
-    let t: (f64, f64) = lo.into();
-    ensure!(t.0 == f64::NEG_INFINITY && same(t.1, b), "C14/into_tuple/lower", "{lo:?} into tuple = {t:?}");
+    let same = |x: $t, y: $t| x.to_bits() == y.to_bits();
+    ensure!(same(up.low_f(), a) && up.high_f() == <$t>::INFINITY, "C14/float_projection/upper", "{up:?}: ({}, {})", up.low_f(), up.high_f());
+    ensure!(lo.low_f() == <$t>::NEG_INFINITY && same(lo.high_f(), b), "C14/float_projection/lower", "{lo:?}: ({}, {})", lo.low_f(), lo.high_f());
+    let t: ($t, $t) = up.into();
+    ensure!(same(t.0, a) && t.1 == <$t>::INFINITY, "C14/into_tuple/upper", "{up:?} into tuple = {t:?}");
+    let t: ($t, $t) = lo.into();
+    ensure!(t.0 == <$t>::NEG_INFINITY && same(t.1, b), "C14/into_tuple/lower", "{lo:?} into tuple = {t:?}");
     ensure!(up.width().is_none() && lo.width().is_none(), "C14/width/one_sided", "width of a one-sided interval must be None");
     if a <= b {
         let i = Interval::new(a, b).unwrap();
         ensure!(same(i.low_f(), a) && same(i.high_f(), b), "C14/float_projection/two", "{i:?}: ({}, {})", i.low_f(), i.high_f());
-        let t: (f64, f64) = i.into();
+        let t: ($t, $t) = i.into();
         ensure!(same(t.0, a) && same(t.1, b), "C14/into_tuple/two", "{i:?} into tuple = {t:?}");
         ensure!(Interval::try_from(t).ok() == Some(i), "C14/tuple_roundtrip", "{i:?} -> tuple -> back differs");
         let w = b - a;
@@ -183,6 +210,10 @@ fn laws_f64(a: f64, b: f64, obs: &mut Obs) -> PResult {
     }
     Ok(())
 }
+    };
+}
+float_laws!(laws_f64, f64);
+float_laws!(laws_f32, f32);
 
 #[derive(Clone, Debug, Serialize, Deserialize)]
 pub struct IntPair {
@@ -194,6 +225,8 @@ pub struct IntPair {
 pub struct FloatPair {
     pub a: X,
     pub b: X,
+    #[serde(default)]
+    pub f32: bool,
 }
 #[derive(Clone, Debug, Serialize, Deserialize)]
 pub struct StrPair {
@@ -213,6 +246,14 @@ pub fn int_case(c: &IntPair, obs: &mut Obs) -> PResult {
         "u8" => laws_u8(c.a as u8, c.b as u8, obs),
         "i64" => laws_i64(c.a as i64, c.b as i64, obs),
         "u64" => laws_u64(c.a as u64, c.b as u64, obs),
+        "i16" => laws_i16(conv!(i16, c.a), conv!(i16, c.b), obs),
+        "i32" => laws_i32(conv!(i32, c.a), conv!(i32, c.b), obs),
+        "i128" => laws_i128(conv!(i128, c.a), conv!(i128, c.b), obs),
+        "isize" => laws_isize(conv!(isize, c.a), conv!(isize, c.b), obs),
+        "u16" => laws_u16(conv!(u16, c.a), conv!(u16, c.b), obs),
+        "u32" => laws_u32(conv!(u32, c.a), conv!(u32, c.b), obs),
+        "u128" => laws_u128(conv!(u128, c.a), conv!(u128, c.b), obs),
+        "usize" => laws_usize(conv!(usize, c.a), conv!(usize, c.b), obs),
         t => crate::engine::fail("INFRA/harness_panic", format!("unknown type {t}")),
     }
 }
@@ -221,7 +262,12 @@ pub fn float_case(c: &FloatPair, obs: &mut Obs) -> PResult {
     if obs.wants_sample("f64") {
         obs.sample("f64", || json!({"a": c.a, "b": c.b}));
     }
-    laws_f64(c.a.0, c.b.0, obs)
+    if c.f32 {
+        obs.class("float/f32");
+        laws_f32(c.a.0 as f32, c.b.0 as f32, obs)
+    } else {
+        laws_f64(c.a.0, c.b.0, obs)
+    }
 }
 pub fn str_case(c: &StrPair, obs: &mut Obs) -> PResult {
     obs.nontrivial(&(&c.a, &c.b));
@@ -249,7 +295,7 @@ fn f64_any() -> impl Strategy<Value = f64> {
 
 pub fn run(run: &mut Run) {
     run.technique = "bounded exhaustive enumeration (all i8 and u8 bound pairs) + proptest random search over i64/u64/f64/char/&str/String; oracle = round-trip and consistency laws".into();
-    run.rule = "all 65 536 (a,b) pairs of i8 and of u8 through every constructor, conversion and accessor; random i64/u64 (with MIN/MAX), f64 (±0, ±inf, subnormals; no NaN), char, &str/String pairs; every pair is non-trivial; distinct = (type, a, b)".into();
+    run.rule = "all 65 536 (a,b) pairs of i8 and of u8 through every constructor, conversion and accessor; random i64/u64 and the eight other integer element types (i16 … i128, isize, u16 … u128, usize; with MIN/MAX), f64 and f32 (±0, ±inf, subnormals; no NaN), char, &str/String pairs; every pair is non-trivial; distinct = (type, a, b)".into();
     run.par(512, |shard, obs| {
         let ty = if shard < 256 { "i8" } else { "u8" };
         let ai = (shard % 256) as i128;
@@ -268,13 +314,20 @@ pub fn run(run: &mut Run) {
     let u64s = prop_oneof![3 => any::<u64>(), 2 => 0u64..=6, 1 => prop::sample::select(vec![0u64, u64::MAX, u64::MAX - 1])];
     let s = (u64s.clone(), u64s).prop_map(|(a, b)| IntPair { ty: "u64".into(), a: a as i128, b: b as i128 });
     run.prop("int_u64", n, s, int_case);
-    let s = (f64_any(), f64_any()).prop_map(|(a, b)| FloatPair { a: X(a), b: X(b) });
+    // the remaining eight integer element types of the tuple conversions and projections
+    let wide = || prop_oneof![3 => any::<i128>(), 2 => -3i128..=3, 2 => prop::sample::select(vec![i128::MIN, i128::MAX, i128::MIN + 1, i128::MAX - 1, 0])];
+    let s = (prop::sample::select(vec!["i16", "i32", "i128", "isize", "u16", "u32", "u128", "usize"]), wide(), wide()).prop_map(|(ty, a, b)| IntPair { ty: ty.into(), a, b });
+    run.prop("int_other", n, s, |c, obs| {
+        obs.class(&format!("int/{}", c.ty));
+        int_case(c, obs)
+    });
+    let s = (f64_any(), f64_any(), prop::bool::weighted(0.3)).prop_map(|(a, b, f32_)| FloatPair { a: X(if f32_ { (a as f32) as f64 } else { a }), b: X(if f32_ { (b as f32) as f64 } else { b }), f32: f32_ });
     run.prop("float", n, s, float_case);
     let s = ("[a-c]{0,3}", "[a-c]{0,3}").prop_map(|(a, b)| StrPair { a, b });
     run.prop("str", n / 4, s, str_case);
     let s = (any::<char>(), any::<char>()).prop_map(|(a, b)| CharPair { a, b });
     run.prop("char", n / 4, s, char_case);
-    for c in ["bounds/equal", "bounds/ordered", "bounds/inverted"] {
+    for c in ["bounds/equal", "bounds/ordered", "bounds/inverted", "int/isize", "int/usize", "int/i128", "int/u128", "int/i16", "int/u16", "int/i32", "int/u32", "float/f32"] {
         run.require_class(c);
     }
     run.assumptions.push("NaN bounds are outside the quantifier; that intervals of different kinds hash differently is not required and not asserted".into());
@@ -282,7 +335,7 @@ pub fn run(run: &mut Run) {
 
 pub fn replay(sub: &str, v: &Value, obs: &mut Obs) -> Option<PResult> {
     Some(match sub {
-        "int" | "int_u64" => int_case(&de(v), obs),
+        "int" | "int_u64" | "int_other" => int_case(&de(v), obs),
         "float" => float_case(&de(v), obs),
         "str" => str_case(&de(v), obs),
         "char" => char_case(&de(v), obs),
